@@ -1,12 +1,15 @@
 #!/bin/bash
-# Offline corpus search (not part of any check): TLC simulation of LachesisAlt.tla looks for DAGs on which a
-# mis-stated rule (Variant) changes the Atropos sequence; the emitted DAGs are filtered into corpus/*.ndjson by hand.
-# usage: search_corpus.sh <outdir> <seconds> <seed> cfg...
+# Offline corpus search (not part of any check): TLC simulation looks for DAGs on which a mis-stated rule
+# (LachesisAlt.tla, cfg MC_LachesisAlt_<name>) changes the outcome, or on which a structural situation
+# occurs (Lachesis.tla, cfg MC_Lachesis_<name> with a "No..." invariant). Emitted DAGs are filtered into corpus/*.ndjson.
+# usage: search_corpus.sh <outdir> <seconds> <seed> name...      (name = alt:<cfg> or base:<cfg>)
 out=$1; secs=$2; seed=$3; shift 3
 mkdir -p $out; cp "$(dirname "$0")"/*.tla "$(dirname "$0")"/*.cfg $out; cd $out
-for c in "$@"; do
-  (timeout $secs java -XX:+UseParallelGC -Xmx3g -cp /opt/veriftools/tla/tla2tools.jar:/opt/veriftools/tla/CommunityModules-deps.jar tlc2.TLC \
-     -metadir $out/m_$c -config MC_LachesisAlt_$c.cfg -workers 2 -simulate num=100000000 -depth 29 -continue -seed $seed MC_LachesisAlt > out_${c}_$seed.txt 2>&1 &)
+for spec in "$@"; do
+  kind=${spec%%:*}; c=${spec##*:}
+  if [ $kind = alt ]; then mod=MC_LachesisAlt; cfg=MC_LachesisAlt_$c.cfg; else mod=MC_Lachesis; cfg=MC_Lachesis_$c.cfg; fi
+  (timeout $secs java -XX:+UseParallelGC -XX:ParallelGCThreads=2 -Xmx3g -cp /opt/veriftools/tla/tla2tools.jar:/opt/veriftools/tla/CommunityModules-deps.jar tlc2.TLC \
+     -metadir $out/m_$c -config $cfg -workers 1 -simulate num=100000000 -depth 31 -continue -seed $seed $mod > out_${c}_$seed.txt 2>&1 &)
 done
 sleep $secs; sleep 5
 grep -c '^<<"EDGE' out_*_$seed.txt
